@@ -821,6 +821,22 @@ def gen_proc_shell(rng, pname, kind=None):
             "body": [], "internal": []}
 
 
+def prefix_statements(fname, nargs):
+    """[(statement, extra scalar or None)]: statements whose FIRST token has the name of the function [fname] as a
+    proper prefix and whose only reference is to that function (an INTRINSICS spelling: the statement does not begin
+    with the keyword, it begins with a longer name)"""
+    args = [lit(x) for x in ["1", "2", "3"][:nargs]]
+    a = lit("") if not args else args[-1]
+    for x in reversed(args[:-1]):
+        a = ("bin", x, ", ", a)
+    ref = ("des", ("la", fname, a))
+    return [(("form", None, True, ("FAssign", name(f"{fname}_local"), ref)), f"{fname}_local"),
+            (("form", None, True, ("FAssign", name(f"{fname}2"), ref)), f"{fname}2"),
+            (("form", "10", True, ("FAssign", name(f"{fname}_v"), ref)), f"{fname}_v"),
+            (("form", "20", False, ("FIfAssign", ("bin", name(f"{fname}_rc"), " > ", lit("0")), name(f"{fname}_rc"), ref)), f"{fname}_rc"),
+            (("call", None, ("la", f"{fname}_helper", ref)), None)]
+
+
 def gen_project(rng, knobs=None):
     """-> abstract project {modules: [...], program: {...} | None}"""
     knobs = dict(knobs or {})
@@ -831,7 +847,8 @@ def gen_project(rng, knobs=None):
     mods = []
     for mi in range(nmod):
         mine = pnames[mi::nmod]
-        procs = [gen_proc_shell(rng, p) for p in mine]
+        procs = [gen_proc_shell(rng, p, "function" if knobs.get("prefix_stmt") and p in INTRINSIC_NAMED_PROCS else None)
+                 for p in mine]
         fprocs = [p["name"] for p in procs if p["kind"] == "function"]
         sprocs = [p["name"] for p in procs if p["kind"] == "subroutine"]
         uses = [m["name"] for m in mods] if mi and rng.random() < 0.8 else []
@@ -952,6 +969,16 @@ def fill_unit(rng, proj, mod, unit, host):
     if knobs.get("unknown_proc", True):
         env.unknown_procs = rng.sample(["ext_fn", "extsub", "sum_ext"], rng.choice([0, 1]))
     body = gen_body(rng, env, rng.choice([2, 4, 6, 9]), rng.choice([1, 2, 2, 3]))
+    # the only reference of the unit: a function spelled like an INTRINSICS entry, in a statement that begins with a
+    # longer name (`rank_local = rank(1)`)
+    cands = [(f, n) for f, n in env.funcs if f in INTRINSIC_NAMED_PROCS and f != unit["name"]]
+    if cands and rng.random() < knobs.get("prefix_stmt", 0):
+        f, n = rng.choice(sorted(set(cands)))
+        st, var = rng.choice(prefix_statements(f, n))
+        body = [st]
+        if var:
+            unit["locals"]["scalars"] = sorted(set(unit["locals"]["scalars"]) | {var})
+        unit["prefix_stmt"] = f
     p_case = knobs.get("p_case", rng.choice([0.0, 0.15, 0.3, 0.6]))
     unit["body"] = [recase_stmt(rng, s_, p_case) for s_ in body] if p_case else body
     unit["env_types"] = sorted(env.types)
